@@ -1,11 +1,19 @@
 """C11 — references stay references and values stay intact along the call path.
 
 Proof: lean/Sigc/Props/C11.lean (object model `callO`: every hop of every call operator follows the declared
-parameter kind in the table `paramKind`).
+parameter kind in the table `paramKind` and the way of passing the parameters on in the table `passKind` —
+`std::forward` everywhere except compose2_functor, which hands its *named* parameters to both getters).
 Correspondence: generated signals over an `Obj` class with address identity and copy/move accounting; the Lean
 driver's prediction (received objects, values seen, final values, copy/move counters, result) vs the real library;
 monitor = the property statement as an interpreter (harness/adapt_gen.py: IdealC11): adaptors route the caller's
 objects and never copy, only declared by-value parameters copy.
+
+Result references: a reference handed out as a *result* stays that reference too — bind_return(f, std::ref(x)) /
+std::cref(x) returns x itself (address equality, hence zero copies), through its nullary overload `operator()()` and
+through the variadic one, called directly and below hide / bind / compose / track_object / exception_catch; and the
+reference a getter of compose() returns reaches the setter as that very object (no by-value local in between).  These
+probes are direct calls (a slot<T&(...)> cannot be called in the current code); they reuse the value/result model of
+the Adapt component (`c10` driver lines, theorem C11.bound_result_reference = C10.bound_result_identity).
 """
 import json
 import os
@@ -21,12 +29,14 @@ LEVEL = "proof"
 MODULE = "Sigc.Props.C11"
 REQUIRED = ["Sigc.C11.ref_identity", "Sigc.C11.bound_ref_identity", "Sigc.C11.value_intact",
             "Sigc.C11.result_not_defaulted", "Sigc.C11.f5_witness", "Sigc.C11.rref_witness",
-            "Sigc.C11.rref_forwarders", "Sigc.C11.paramKind_forwarding"]
+            "Sigc.C11.rref_forwarders", "Sigc.C11.paramKind_forwarding", "Sigc.C11.passKind_rows",
+            "Sigc.C11.compose2_getters_intact", "Sigc.C11.compose2_forward_witness",
+            "Sigc.C11.bound_result_reference", "Sigc.C11.getter_result_reaches_setter"]
 TRUSTED = [
     "Lean 4.33.0 kernel (thorough: leanchecker); axioms per theorem as audited by #print axioms",
     "the hand-written object model lean/Sigc/Adapt.lean part 4 (Heap, enterArg, tupleElem, takeParam, castTo, "
-    "leafInit/leafBody, ONode.args, callO, emitVoidO/emitValueO) and its table paramKind : AdaptorKind -> "
-    "byValue | forwardingRef: tied to sigc++/adaptors/*.h, type_traits.h, functors/slot.h, signal.h, "
+    "leafInit/leafBody, ONode.args, callO, emitVoidO/emitValueO) and its tables paramKind : AdaptorKind -> "
+    "byValue | forwardingRef and passKind : AdaptorKind -> forward | named: tied to sigc++/adaptors/*.h, type_traits.h, functors/slot.h, signal.h, "
     "bound_argument.h, limit_reference.h only by the sampled correspondence below",
     "IdealC11 (Python) as the reading of the property statement",
     "generator, harness/adapt_support.h (Obj: identity by address, copy/move constructors that count and record "
@@ -119,7 +129,90 @@ def build_cases(ctx):
             cases.append(one(k, p, ns, depth))
         for _ in range(50):
             cases.append(one(rng.choice("vlcr"), rng.below(4), 1 + rng.below(3), 1 + rng.below(3), rng.choice(ag.KINDS11)))
+        # rvalue-reference parameters into compose(s, g1, g2): both getters must get the named parameter (copies)
+        for _ in range(8):
+            cases.append(one("r", rng.below(3), 1 + rng.below(2), 1 + rng.below(3), "C2"))
     return cases
+
+
+# bind_return with a std::ref / std::cref bound value (always the first "BR" of the chain; force_ref makes it so), entered
+# through the nullary overload (no arguments reach it) or the variadic one, directly and nested
+PROBES = [(0, ["BR"]), (1, ["BR"]), (3, ["BR"]), (1, ["H", "BR"]), (1, [("Hi", 0), "BR"]), (2, ["H", "BR"]), (2, ["H", "H", "BR"]),
+          (0, ["C1", "BR"]), (1, ["C1", "BR"]), (0, ["C2", "BR"]), (2, ["C2", "BR"]), (0, ["TO", "BR"]), (0, ["EC", "BR"]),
+          (1, ["Bi", "BR"]), (0, ["B", "BR"]), (0, ["RR", "BR"]), (1, ["H", "TO", "BR"]), (1, ["H", "C1", "BR"])]
+# compose(s, g1, g2) / compose(s, g): getters returning references, setter with const T& parameters that record which
+# object they are (GenC10.getter_ref)
+GETTER_PROBES = [(1, ["C2"]), (2, ["C2"]), (0, ["C2"]), (1, ["C1"]), (0, ["C2", "BR"]), (2, ["H", "C2"]), (1, ["TO", "C2"]),
+                 (2, ["C2", "TO"]), (1, ["EC", "C2"])]
+PROBE_CORPUS = os.path.join(CORPUS, "result_refs.probes")
+
+
+def build_probes(ctx):
+    g = ag.GenC10(ctx.rng)
+    cases = []
+    if os.path.exists(PROBE_CORPUS):
+        for c in json.load(open(PROBE_CORPUS))["cases"]:
+            c = {k: tup(v) for k, v in c.items()}
+            c["origin"] = "corpus:result_refs.probes"
+            cases.append(c)
+    for _ in range(4 if ctx.thorough else 1):
+        for n, ch in PROBES:
+            c = g.case(n, list(ch), "D", force_ref=True)
+            c["origin"] = "gen:result-probe"
+            cases.append(c)
+        g.getter_ref = True
+        for n, ch in GETTER_PROBES:
+            c = g.case(n, list(ch), "D")
+            c["origin"] = "gen:getter-probe"
+            cases.append(c)
+        g.getter_ref = False
+    return cases
+
+
+def evaluate_probes(cases, per_tu):
+    b = ag.Builder("c11")
+    err = b.prepare()
+    if err:
+        return None, [err]
+    obs, nocompile = ag.build_and_run(b, len(cases), lambda i, j: ag.c10_body(cases[i], j), per_tu)
+    lines = [ag.c10_line(c) for c in cases]
+    try:
+        model = ag.model_run(lines)
+    except RuntimeError as ex:
+        return None, [str(ex)]
+    res = []
+    for i in range(len(cases)):
+        impl = obs[i] if i not in nocompile else "nocompile:" + nocompile[i]
+        res.append({"impl": impl, "model": model[i], "line": lines[i], "expected": ag.c10_expected(cases[i])})
+    return res, []
+
+
+def classify_probes(cases, results):
+    dis, mon = [], []
+    for c, r in zip(cases, results):
+        impl = ag.c10_norm_impl(r["impl"])
+        if impl is None:
+            continue
+        wt, model, spec = ag.c10_norm_model(r["model"])
+        cxx = ag.ExprC10.cxx(c["expr"])
+        base = {"input": r["line"], "impl": impl, "model": model, "expected": r["expected"], "case": c, "cxx": cxx}
+        if impl.startswith("nocompile:"):
+            d = dict(base)
+            d["detail"] = "a documented-valid adaptor expression is rejected by the compiler: %s [%s]" % (cxx, impl[10:400])
+            mon.append(d)
+            continue
+        if impl != r["expected"]:
+            d = dict(base)
+            d["detail"] = ("a reference result did not stay the reference (or the call did something else than documented): "
+                           "observed [%s], property [%s] for %s called directly with (%s)"
+                           % (impl, r["expected"], cxx, ag.c10_call_text(c)))
+            mon.append(d)
+        if impl != model or wt != "1" or spec != "same":
+            d = dict(base)
+            d["detail"] = "model and implementation differ: model [%s wt=%s spec=%s], implementation [%s]" % (
+                model, wt, spec, impl)
+            dis.append(d)
+    return dis, mon
 
 
 def edge_stream(ctx):
@@ -132,24 +225,34 @@ def edge_stream(ctx):
             ("c11 V 1 l 1 5 0 1 L 0 1 0 1 z", "parse-error")]
 
 
-def evaluate(cases, per_tu):
+def evaluate(cases, per_tu, probes=None):
+    """signal cases (+ optionally the direct-call result probes, compiled and run in the same parallel batch; their
+    results are then returned as a fourth component)"""
     infra = []
     b = ag.Builder("c11")
     err = b.prepare()
     if err:
-        return None, [err], b
-    obs, nocompile = ag.build_and_run(b, len(cases), lambda i, j: ag.c11_body(cases[i], j), per_tu)
-    lines = [ag.c11_line(c) for c in cases]
+        return (None, [err], b) if probes is None else (None, [err], b, None)
+    n1 = len(cases)
+    allc = list(cases) + list(probes or [])
+    obs, nocompile = ag.build_and_run(
+        b, len(allc), lambda i, j: ag.c11_body(allc[i], j) if i < n1 else ag.c10_body(allc[i], j), per_tu)
+    lines = [ag.c11_line(c) for c in cases] + [ag.c10_line(c) for c in allc[n1:]]
     try:
         model = ag.model_run(lines)
     except RuntimeError as ex:
-        return None, infra + [str(ex)], b
+        return (None, infra + [str(ex)], b) if probes is None else (None, infra + [str(ex)], b, None)
     res = []
-    for i in range(len(cases)):
+    for i in range(len(allc)):
         impl = obs[i] if i not in nocompile else "nocompile:" + nocompile[i]
-        res.append({"impl": impl, "model": model[i], "line": lines[i]})
+        r = {"impl": impl, "model": model[i], "line": lines[i]}
+        if i >= n1:
+            r["expected"] = ag.c10_expected(allc[i])
+        res.append(r)
     b.prune()
-    return res, infra, b
+    if probes is None:
+        return res, infra, b
+    return res[:n1], infra, b, res[n1:]
 
 
 def cxx_of(c):
@@ -273,8 +376,9 @@ def correspondence(ctx):
     corpus = load_corpus()
     gen = build_cases(ctx)
     cases = corpus + gen
-    per_tu = 20 if ctx.thorough else max(8, (len(cases) + common.NCPU - 1) // common.NCPU)
-    results, infra, b = evaluate(cases, per_tu)
+    probes = build_probes(ctx)       # result references: direct-call probes, built together with the signal cases
+    per_tu = 20 if ctx.thorough else max(8, (len(cases) + len(probes) + common.NCPU - 1) // common.NCPU)
+    results, infra, b, pres = evaluate(cases, per_tu, probes)
     if results is None:
         return {"evaluations": 0, "distinct_nontrivial": 0, "rule": "", "samples": [], "disagreements": [],
                 "monitor_failures": [], "infra_errors": infra}
@@ -322,6 +426,19 @@ def correspondence(ctx):
     evaluated = sum(1 for r in results if r["impl"] is not None)
     # the result clause of C11 ("a result is returned without being replaced by a default unless no slot ran") lives in
     # the emit loops of the runtime core: run the value-result profile of the operation language too (engine props/rt.py)
+    # result references (bind_return with std::ref / std::cref, compose getters): direct-call probes
+    dist["result_reference_probes"] = {"cases": len(probes), "nullary_overload_entered": 0, "reference_observed": 0}
+    if pres is not None:
+        pdis, pmon = classify_probes(probes, pres)
+        dis = dis + pdis
+        mon = mon + pmon
+        for c, r in zip(probes, pres):
+            if r["impl"] and ("res=ref:" in r["impl"] or "res=cref:" in r["impl"] or "cref:" in r["impl"]):
+                dist["result_reference_probes"]["reference_observed"] += 1
+                distinct.add(r["line"])
+            if ag.c10_enters_nullary_bind_return(c["expr"], len(c["args"])):
+                dist["result_reference_probes"]["nullary_overload_entered"] += 1
+        evaluated += sum(1 for r in pres if r["impl"] is not None)
     rtres = rt.run(ctx, _RTMOD)
     dist["runtime_result_clause"] = {"programs": rtres.get("evaluations", 0), "distribution": rtres.get("distribution", {})}
     dis = dis + rtres.get("disagreements", [])
@@ -345,7 +462,7 @@ def correspondence(ctx):
 def search(ctx, disagreements):
     found = []
     for d in disagreements[:3]:
-        if not d.get("case"):
+        if not d.get("case") or "expr" in d["case"]:      # (result-reference probes are single direct calls already)
             continue
         cands = shrink_candidates(d["case"])
         if not cands:
@@ -368,6 +485,26 @@ def replay(ctx, path):
         print("replay file has no structured case: ", json.dumps(d)[:400])
         return 2
     case = {k: tup(v) for k, v in case.items()}
+    if "expr" in case:          # a result-reference probe (direct call)
+        res, infra = evaluate_probes([case], 1)
+        if res is None or res[0]["impl"] is None:
+            print("cannot rebuild the case:", infra)
+            return 2
+        r = res[0]
+        print("input    :", r["line"])
+        print("C++      :", ag.ExprC10.cxx(case["expr"]), " called directly with (%s)" % ag.c10_call_text(case))
+        print("property :", r["expected"])
+        print("observed :", ag.c10_norm_impl(r["impl"]))
+        print("model    :", ag.c10_norm_model(r["model"])[1])
+        dis, mon = classify_probes([case], [r])
+        if mon:
+            print("RESULT: the implementation violates C11 on this input: " + mon[0]["detail"])
+            return 1
+        if dis:
+            print("RESULT: model and implementation differ on this input (no clause of C11 violated)")
+            return 1
+        print("RESULT: passes")
+        return 0
     res, infra, _b = evaluate([case], 1)
     if res is None or res[0]["impl"] is None:
         print("cannot rebuild the case:", infra)
